@@ -38,9 +38,19 @@ def relerr(a, b):
     return float(np.abs(a - b)[m].max()) / sc
 
 
+_ARG_CHANGES = []
+
+
 def sfs(g, demes_, ns, pts, sample_times=None, **kw):
+    """every front-end evaluation goes through here: the caller's lists (deme names, sample sizes, sample times) must come back as they were"""
     import dadi
-    return np.asarray(dadi.Demes.SFS(g, sampled_demes=list(demes_), sample_sizes=list(ns), pts=pts, sample_times=sample_times, **kw).data)
+    d_arg, n_arg = list(demes_), list(ns)
+    t_arg = list(sample_times) if sample_times is not None else None
+    out = np.asarray(dadi.Demes.SFS(g, sampled_demes=d_arg, sample_sizes=n_arg, pts=pts, sample_times=t_arg, **kw).data)
+    if d_arg != list(demes_) or n_arg != list(ns) or (t_arg is not None and t_arg != list(sample_times)):
+        _ARG_CHANGES.append({'sampled_demes': [list(demes_), d_arg], 'sample_sizes': [list(ns), n_arg],
+                             'sample_times': [list(sample_times) if sample_times is not None else None, t_arg]})
+    return out
 
 
 def agree_or_ladder(err, recompute_at_small_step):
@@ -515,7 +525,11 @@ CASES = {'program': case_program, 'ancient': case_ancient, 'size_cut': case_size
 
 
 def _dispatch(col, case):
+    del _ARG_CHANGES[:]
     CASES[case['kind']](col, case)
+    if _ARG_CHANGES:
+        col.violation('C16:Demes.SFS:caller_lists_modified', dict(case, programs=case.get('programs', [])[:1]), _ARG_CHANGES[0])
+        del _ARG_CHANGES[:]
 
 
 def replay(ctx, case):
